@@ -389,19 +389,19 @@ struct PolSpinMap { using Threading = eventpp::GeneralThreading<eventpp::SpinLoc
 static struct Register {
 	Register() {
 #if VERIF_SUB < 0 || VERIF_SUB == 0
-		addFamily<ListT<PolV> >("C03/list/vmutex", false, 2, 3, 0);
+		addFamily<ListT<PolV> >("C03/list/vmutex", false, 3, 4, 0);
 #endif
 #if VERIF_SUB < 0 || VERIF_SUB == 1
-		addFamily<ListT<PolSpin> >("C03/list/spinlock", false, 1, 2, 0);
+		addFamily<ListT<PolSpin> >("C03/list/spinlock", false, 2, 3, 0);
 #endif
 #if VERIF_SUB < 0 || VERIF_SUB == 2
-		addFamily<DispT<PolVMap> >("C03/dispatcher/vmutex-map", true, 1, 2, 0);
+		addFamily<DispT<PolVMap> >("C03/dispatcher/vmutex-map", true, 2, 3, 0);
 #endif
 #if VERIF_SUB < 0 || VERIF_SUB == 3
-		addFamily<DispT<PolVHash> >("C03/dispatcher/vmutex-unordered_map", true, 1, 2, 0);
+		addFamily<DispT<PolVHash> >("C03/dispatcher/vmutex-unordered_map", true, 2, 3, 0);
 #endif
 #if VERIF_SUB < 0 || VERIF_SUB == 4
-		addFamily<DispT<PolSpinMap> >("C03/dispatcher/spinlock-unordered_map", true, 1, 2, 1);
+		addFamily<DispT<PolSpinMap> >("C03/dispatcher/spinlock-unordered_map", true, 2, 2, 1);
 #endif
 	}
 } reg;
